@@ -70,14 +70,18 @@ theorem node_in_tape (pj : PJ) (q f : Nat) : ∀ v : LVal, Ok pj v → HasNode q
     · have := nodesM_within pj q f ms (p+1) (e-1) hes h; omega
 end
 
-/-- writing the two words at `q`, `q+1` -/
-theorem set2_spec (pj : PJ) (i : Iter) (q : Nat) (hoff : i.off = q + 1) (hq : q + 2 ≤ pj.tape.size) (w0 w1 : UInt64) :
+/-- writing the two words at `q`, `q+1`, both inside the iterator's view (`hv`) and inside the array (`hq`) -/
+theorem set2_spec (pj : PJ) (i : Iter) (q : Nat) (hoff : i.off = q + 1) (hv : i.off < i.lim) (hq : q + 2 ≤ pj.tape.size)
+    (w0 w1 : UInt64) :
     ∃ pj', Iter.set2 pj i w0 w1 = .ok pj' ∧ pj'.strings = pj.strings ∧ pj'.msg = pj.msg ∧ pj'.tape.size = pj.tape.size ∧
       word pj' q = some w0 ∧ word pj' (q + 1) = some w1 ∧ ∀ k, k ≠ q → k ≠ q + 1 → word pj' k = word pj k := by
   have h0 : q < pj.tape.size := by omega
   have h1 : q + 1 < (pj.tape.set q w0 h0).size := by simp; omega
   refine ⟨{ pj with tape := (pj.tape.set q w0 h0).set (q+1) w1 h1 }, ?_, rfl, rfl, by simp, ?_, ?_, ?_⟩
-  · simp only [Iter.set2, hoff, Nat.add_one_ne_zero, if_false, Nat.add_sub_cancel, wr, h0, dite_true, Res.bind_ok, h1]
+  · have hv0 : q < i.lim := by omega
+    have hv1 : q + 1 < i.lim := by omega
+    simp only [Iter.set2, Iter.wrV, hoff, Nat.add_one_ne_zero, if_false, Nat.add_sub_cancel, wr, h0, dite_true, Res.bind_ok, h1,
+      hv0, hv1, if_true]
   · simp only [word, Array.getElem?_set]; simp
   · simp only [word, Array.getElem?_set]; simp
   · intro k hk1 hk2
@@ -89,14 +93,15 @@ theorem stringByteAt_congr {pj pj' : PJ} (hs : pj'.strings = pj.strings) (hm : p
   simp only [stringByteAt, hs, hm]
 
 /-- **C13 (numbers).** For every located document `v` that the tape holds, every two-word scalar node at `q`
-    (string or number) and every iterator positioned on it whose tag passes the gate: `SetInt` succeeds, touches
+    (string or number) and every iterator positioned on it whose tag passes the gate and whose view contains the node
+    (`hv`: Go checks the indices against the view length `lim`): `SetInt` succeeds, touches
     only the two words of that node, and the tape then holds `v` with exactly that node replaced. -/
 theorem setInt_doc (pj : PJ) (v : LVal) (hok : Ok pj v) (q : Nat) (hnode : HasNode q (q + 2) v) (i : Iter)
-    (hoff : i.off = q + 1) (ht : inCase (caseOf swSetInt 0) i.t = true) (z : Int) :
+    (hoff : i.off = q + 1) (hv : i.off < i.lim) (ht : inCase (caseOf swSetInt 0) i.t = true) (z : Int) :
     ∃ pj' i', i.setInt pj z = .ok (pj', i') ∧ Ok pj' (substV q (.int (ofInt64 z) q) v) ∧
       pj'.strings = pj.strings ∧ pj'.msg = pj.msg ∧ pj'.tape.size = pj.tape.size := by
   have hsz := node_in_tape pj q (q+2) v hok hnode
-  obtain ⟨pj', h1, hs, hm, hz, hw0, hw1, hfr⟩ := set2_spec pj i q hoff hsz (mkWord tagInteger 0) (ofInt64 z)
+  obtain ⟨pj', h1, hs, hm, hz, hw0, hw1, hfr⟩ := set2_spec pj i q hoff hv hsz (mkWord tagInteger 0) (ofInt64 z)
   refine ⟨pj', { i with t := tagInteger, cur := ofInt64 z }, ?_, ?_, hs, hm, hz⟩
   · simp only [Iter.setInt, ht, if_true, h1, Res.bind_ok]
   · have hA : AgreeOut pj pj' q (q+2) :=
@@ -107,11 +112,11 @@ theorem setInt_doc (pj : PJ) (v : LVal) (hok : Ok pj v) (q : Nat) (hnode : HasNo
     exact (subst_ok hA hn rfl (Nat.le_refl _) (gap_refl _ _) v hok hnode).1
 
 theorem setUInt_doc (pj : PJ) (v : LVal) (hok : Ok pj v) (q : Nat) (hnode : HasNode q (q + 2) v) (i : Iter)
-    (hoff : i.off = q + 1) (ht : inCase (caseOf swSetUInt 0) i.t = true) (z : UInt64) :
+    (hoff : i.off = q + 1) (hv : i.off < i.lim) (ht : inCase (caseOf swSetUInt 0) i.t = true) (z : UInt64) :
     ∃ pj' i', i.setUInt pj z = .ok (pj', i') ∧ Ok pj' (substV q (.uint z q) v) ∧
       pj'.strings = pj.strings ∧ pj'.msg = pj.msg ∧ pj'.tape.size = pj.tape.size := by
   have hsz := node_in_tape pj q (q+2) v hok hnode
-  obtain ⟨pj', h1, hs, hm, hz, hw0, hw1, hfr⟩ := set2_spec pj i q hoff hsz (mkWord tagUint 0) z
+  obtain ⟨pj', h1, hs, hm, hz, hw0, hw1, hfr⟩ := set2_spec pj i q hoff hv hsz (mkWord tagUint 0) z
   refine ⟨pj', { i with t := tagUint, cur := z }, ?_, ?_, hs, hm, hz⟩
   · simp only [Iter.setUInt, ht, if_true, h1, Res.bind_ok]
   · have hA : AgreeOut pj pj' q (q+2) :=
@@ -122,11 +127,11 @@ theorem setUInt_doc (pj : PJ) (v : LVal) (hok : Ok pj v) (q : Nat) (hnode : HasN
     exact (subst_ok hA hn rfl (Nat.le_refl _) (gap_refl _ _) v hok hnode).1
 
 theorem setFloat_doc (pj : PJ) (v : LVal) (hok : Ok pj v) (q : Nat) (hnode : HasNode q (q + 2) v) (i : Iter)
-    (hoff : i.off = q + 1) (ht : inCase (caseOf swSetFloat 0) i.t = true) (bits : UInt64) :
+    (hoff : i.off = q + 1) (hv : i.off < i.lim) (ht : inCase (caseOf swSetFloat 0) i.t = true) (bits : UInt64) :
     ∃ pj' i', i.setFloat pj bits = .ok (pj', i') ∧ Ok pj' (substV q (.float bits 0 q) v) ∧
       pj'.strings = pj.strings ∧ pj'.msg = pj.msg ∧ pj'.tape.size = pj.tape.size := by
   have hsz := node_in_tape pj q (q+2) v hok hnode
-  obtain ⟨pj', h1, hs, hm, hz, hw0, hw1, hfr⟩ := set2_spec pj i q hoff hsz (mkWord tagFloat 0) bits
+  obtain ⟨pj', h1, hs, hm, hz, hw0, hw1, hfr⟩ := set2_spec pj i q hoff hv hsz (mkWord tagFloat 0) bits
   refine ⟨pj', { i with t := tagFloat, cur := 0 }, ?_, ?_, hs, hm, hz⟩
   · simp only [Iter.setFloat, ht, if_true, h1, Res.bind_ok]
   · have hA : AgreeOut pj pj' q (q+2) :=
@@ -138,11 +143,11 @@ theorem setFloat_doc (pj : PJ) (v : LVal) (hok : Ok pj v) (q : Nat) (hnode : Has
 
 /-- **C13 (SetNull on a two-word scalar).** The value becomes `null` and its second word a one-entry gap. -/
 theorem setNull_scalar_doc (pj : PJ) (v : LVal) (hok : Ok pj v) (q : Nat) (hnode : HasNode q (q + 2) v) (i : Iter)
-    (hoff : i.off = q + 1) (ht0 : inCase (caseOf swSetNull 0) i.t = false) (ht : inCase (caseOf swSetNull 1) i.t = true) :
+    (hoff : i.off = q + 1) (hv : i.off < i.lim) (ht0 : inCase (caseOf swSetNull 0) i.t = false) (ht : inCase (caseOf swSetNull 1) i.t = true) :
     ∃ pj' i', i.setNull pj = .ok (pj', i') ∧ Ok pj' (substV q (.null q) v) ∧
       pj'.strings = pj.strings ∧ pj'.msg = pj.msg ∧ pj'.tape.size = pj.tape.size := by
   have hsz := node_in_tape pj q (q+2) v hok hnode
-  obtain ⟨pj', h1, hs, hm, hz, hw0, hw1, hfr⟩ := set2_spec pj i q hoff hsz (mkWord tagNull 0) (mkWord tagNop 1)
+  obtain ⟨pj', h1, hs, hm, hz, hw0, hw1, hfr⟩ := set2_spec pj i q hoff hv hsz (mkWord tagNull 0) (mkWord tagNop 1)
   refine ⟨pj', { i with t := tagNull, cur := 0 }, ?_, ?_, hs, hm, hz⟩
   · simp only [Iter.setNull, ht0, ht, if_true, h1, Res.bind_ok]
     rfl
@@ -165,11 +170,11 @@ end SJ.Layout
 namespace SJ.Layout
 open SJ SJ.Generated
 
-/-- writing the single word at `q` -/
-theorem set1_spec (pj : PJ) (q : Nat) (hq : q < pj.tape.size) (w0 : UInt64) :
-    ∃ tp, wr pj.tape q w0 = .ok tp ∧ tp.size = pj.tape.size ∧
+/-- writing the single word at `q`, inside the view (`hv`) and the array (`hq`) -/
+theorem set1_spec (pj : PJ) (lim : Nat) (q : Nat) (hv : q < lim) (hq : q < pj.tape.size) (w0 : UInt64) :
+    ∃ tp, Iter.wrV lim pj.tape q w0 = .ok tp ∧ tp.size = pj.tape.size ∧
       word { pj with tape := tp } q = some w0 ∧ ∀ k, k ≠ q → word { pj with tape := tp } k = word pj k := by
-  refine ⟨pj.tape.set q w0 hq, by simp [wr, hq], by simp, ?_, ?_⟩
+  refine ⟨pj.tape.set q w0 hq, by simp [Iter.wrV, wr, hq, hv], by simp, ?_, ?_⟩
   · simp only [word, Array.getElem?_set]; simp
   · intro k hk
     simp only [word, Array.getElem?_set]
@@ -177,11 +182,11 @@ theorem set1_spec (pj : PJ) (q : Nat) (hq : q < pj.tape.size) (w0 : UInt64) :
 
 /-- **C13 (SetBool).** On a `true`/`false`/`null` node the value becomes the requested boolean. -/
 theorem setBool_doc (pj : PJ) (v : LVal) (hok : Ok pj v) (q : Nat) (hnode : HasNode q (q + 1) v) (i : Iter)
-    (hoff : i.off = q + 1) (ht : inCase (caseOf swSetBool 0) i.t = true) (b : Bool) :
+    (hoff : i.off = q + 1) (hv : i.off ≤ i.lim) (ht : inCase (caseOf swSetBool 0) i.t = true) (b : Bool) :
     ∃ pj' i', i.setBool pj b = .ok (pj', i') ∧ Ok pj' (substV q (.bool b q) v) ∧
       pj'.strings = pj.strings ∧ pj'.msg = pj.msg ∧ pj'.tape.size = pj.tape.size := by
   have hsz := node_in_tape pj q (q+1) v hok hnode
-  obtain ⟨tp, h1, hz, hw0, hfr⟩ := set1_spec pj q (by omega) (mkWord (if b then tagBoolTrue else tagBoolFalse) 0)
+  obtain ⟨tp, h1, hz, hw0, hfr⟩ := set1_spec pj i.lim q (by omega) (by omega) (mkWord (if b then tagBoolTrue else tagBoolFalse) 0)
   refine ⟨{ pj with tape := tp }, { i with t := (if b then tagBoolTrue else tagBoolFalse), cur := 0 }, ?_, ?_, rfl, rfl, hz⟩
   · simp only [Iter.setBool, ht, if_true, hoff, Nat.add_one_ne_zero, if_false, Nat.add_sub_cancel, h1, Res.bind_ok]
   · have hA : AgreeOut pj { pj with tape := tp } q (q+1) :=
@@ -193,11 +198,11 @@ theorem setBool_doc (pj : PJ) (v : LVal) (hok : Ok pj v) (q : Nat) (hnode : HasN
 
 /-- **C13 (SetNull on a one-word scalar).** -/
 theorem setNull_word_doc (pj : PJ) (v : LVal) (hok : Ok pj v) (q : Nat) (hnode : HasNode q (q + 1) v) (i : Iter)
-    (hoff : i.off = q + 1) (ht : inCase (caseOf swSetNull 0) i.t = true) :
+    (hoff : i.off = q + 1) (hv : i.off ≤ i.lim) (ht : inCase (caseOf swSetNull 0) i.t = true) :
     ∃ pj' i', i.setNull pj = .ok (pj', i') ∧ Ok pj' (substV q (.null q) v) ∧
       pj'.strings = pj.strings ∧ pj'.msg = pj.msg ∧ pj'.tape.size = pj.tape.size := by
   have hsz := node_in_tape pj q (q+1) v hok hnode
-  obtain ⟨tp, h1, hz, hw0, hfr⟩ := set1_spec pj q (by omega) (mkWord tagNull 0)
+  obtain ⟨tp, h1, hz, hw0, hfr⟩ := set1_spec pj i.lim q (by omega) (by omega) (mkWord tagNull 0)
   refine ⟨{ pj with tape := tp }, { i with t := tagNull, cur := 0 }, ?_, ?_, rfl, rfl, hz⟩
   · simp only [Iter.setNull, ht, if_true, hoff, Nat.add_one_ne_zero, if_false, Nat.add_sub_cancel, h1, Res.bind_ok]
   · have hA : AgreeOut pj { pj with tape := tp } q (q+1) :=
@@ -258,6 +263,25 @@ theorem nopFill_spec : ∀ (n : Nat) (tape : Array UInt64) (lo hi : Nat), hi - l
       simp only [Array.getElem?_set]
       rw [if_neg (by omega)]
 
+/-- a fill that ends inside the view is the fill of the whole array -/
+theorem nopFillV_eq_nopFill (lim : Nat) : ∀ (n : Nat) (tape : Array UInt64) (lo hi : Nat), hi - lo = n → hi ≤ lim →
+    Iter.nopFillV lim tape lo hi = Iter.nopFill tape lo hi := by
+  intro n
+  induction n with
+  | zero =>
+    intro tape lo hi hn hl
+    have : ¬ lo < hi := by omega
+    rw [Iter.nopFillV, Iter.nopFill]; simp [this]
+  | succ n ih =>
+    intro tape lo hi hn hl
+    have hlt : lo < hi := by omega
+    have hv : lo < lim := by omega
+    rw [Iter.nopFillV, Iter.nopFill]
+    simp only [hlt, dite_true, Iter.wrV, hv, if_true]
+    cases hw : wr tape lo (mkWord tagNop (UInt64.ofNat (hi - lo))) with
+    | ok t => simp only [Res.bind_ok]; exact ih t (lo + 1) hi (by omega) hl
+    | _ => rfl
+
 theorem ofNat_lt_2_56 {n : Nat} (h : n < 2^56) : UInt64.ofNat n < 0x100000000000000 := by
   rw [UInt64.lt_iff_toNat_lt]
   simp only [UInt64.toNat_ofNat']
@@ -278,19 +302,21 @@ theorem gap_of_fill {pj' : PJ} {lo hi : Nat} (hh : hi < 2^56)
   · rw [payloadOf_mkWord _ _ (ofNat_lt_2_56 hs), ofNat_toNat_small hs]; omega
 
 /-- **C14 (SetNull on a container).** An object or array node `[q, e)` becomes `null` followed by a gap that
-    ends exactly at `e`; everything else is untouched. -/
+    ends exactly at `e`; everything else is untouched.  `hv`: the container lies inside the iterator's view. -/
 theorem setNull_container_doc (pj : PJ) (v : LVal) (hok : Ok pj v) (q e : Nat) (hnode : HasNode q e v) (hqe : q + 2 ≤ e)
     (hsmall : pj.tape.size < 2^56) (i : Iter)
-    (hoff : i.off = q + 1) (hcur : i.cur.toNat = e)
+    (hoff : i.off = q + 1) (hcur : i.cur.toNat = e) (hv : i.cur.toNat ≤ i.lim)
     (ht0 : inCase (caseOf swSetNull 0) i.t = false) (ht1 : inCase (caseOf swSetNull 1) i.t = false)
     (ht : inCase (caseOf swSetNull 2) i.t = true) :
     ∃ pj' i', i.setNull pj = .ok (pj', i') ∧ Ok pj' (substV q (.null q) v) ∧
       pj'.strings = pj.strings ∧ pj'.msg = pj.msg ∧ pj'.tape.size = pj.tape.size := by
   have hsz := node_in_tape pj q e v hok hnode
-  obtain ⟨tp0, h1, hz0, hw0, hfr0⟩ := set1_spec pj q (by omega) (mkWord tagNull 0)
+  obtain ⟨tp0, h1, hz0, hw0, hfr0⟩ := set1_spec pj i.lim q (by omega) (by omega) (mkWord tagNull 0)
   obtain ⟨tp, h2, hz, hfill, hfr⟩ := nopFill_spec (e - (q+1)) tp0 (q+1) e rfl (by omega)
   refine ⟨{ pj with tape := tp }, { i with addNext := (i.cur.toNat : Int) - i.off, t := tagNull, cur := 0 }, ?_, ?_, rfl, rfl, by simp; omega⟩
-  · simp only [Iter.setNull, ht0, ht1, ht, if_true, hoff, Nat.add_one_ne_zero, if_false, Nat.add_sub_cancel, h1, Res.bind_ok, hcur, h2]
+  · have h2' : Iter.nopFillV i.lim tp0 (q + 1) e = .ok tp := by
+      rw [nopFillV_eq_nopFill i.lim _ tp0 (q + 1) e rfl (by omega)]; exact h2
+    simp only [Iter.setNull, ht0, ht1, ht, if_true, hoff, Nat.add_one_ne_zero, if_false, Nat.add_sub_cancel, h1, Res.bind_ok, hcur, h2']
     rfl
   · have hA : AgreeOut pj { pj with tape := tp } q e := by
       refine ⟨fun k hk => ?_, fun o l s h => by rw [stringByteAt_congr rfl rfl]; exact h⟩
